@@ -395,6 +395,10 @@ impl Hypercore {
     /// Clear data for entries between start and end (exclusive) indexes.
     #[instrument(err, skip(self))]
     pub async fn clear(&mut self, start: u64, end: u64) -> Result<(), HypercoreError> {
+        // Blocks at or beyond the current length do not exist, so there is nothing to clear
+        // there. Without this the bitfield allocates a page for every 32768 indices of the
+        // range, and a large `end` exhausts memory.
+        let end = std::cmp::min(end, self.tree.length);
         if start >= end {
             // NB: This is what javascript does, so we mimic that here
             return Ok(());
